@@ -415,9 +415,9 @@ def edge_grid(rng, band, side, nx, dl=1.0e-4):
     return None
 
 
-def gen_filter_job(ctx, small, direction=None, wave=None, cover=None, dtype=None, edge=None):
+def gen_filter_job(ctx, small, direction=None, wave=None, cover=None, dtype=None, edge=None, ends=False):
     rng = ctx.rng
-    nT = rng.randint(1, 3)
+    nT = 3 if ends else rng.randint(1, 3)
     nx = rng.randint(24, 48) if small else rng.randint(300, 1200)
     kind = cover or rng.choice(['full', 'full', 'blue', 'red', 'outside'])
     lam_lo, lam_hi = {'full': (3000.0, 11000.0), 'blue': (3000.0, 5200.0), 'red': (6500.0, 11500.0), 'outside': (12000.0, 20000.0)}[kind]
@@ -450,8 +450,9 @@ def gen_filter_job(ctx, small, direction=None, wave=None, cover=None, dtype=None
            'op': 'filter', 'nT': nT, 'nx': nx, 'flux': flux, 'flux2': flux2, 'loglam0': loglam0, 'dloglam': dloglam,
            'wave': wave or rng.choice(['waveimg', 'waveimg', 'wset']), 'toair': (rng.random() < 0.3) and edge is None, 'direction': direction,
            'a': C.dyadic(rng, -3, 3, 4), 'b': C.dyadic(rng, -3, 3, 4), 'c': C.dyadic(rng, -5, 50, 4),
-           'mask': None, 'return_weights': small, 'cover': kind}
-    if rng.random() < 0.6:
+           'mask': None, 'return_weights': small, 'cover': kind,
+           'levels': [C.dyadic(rng, 1, 40, 3) + 3 * t for t in range(nT)]}
+    if ends or rng.random() < 0.6:
         mask = [1 if rng.random() < 0.15 else 0 for _ in range(nT * nx)]
         # runs of masked pixels, masked edges
         for t in range(nT):
@@ -462,6 +463,12 @@ def gen_filter_job(ctx, small, direction=None, wave=None, cover=None, dtype=None
                 mask[t * nx] = 1
             if rng.random() < 0.5:
                 mask[t * nx + nx - 1] = 3
+            if ends:
+                # masked pixels at the first / last pixels of the trace (their neighbours in memory belong to another trace)
+                for k in range(rng.randint(1, 3)):
+                    mask[t * nx + k] = 1
+                for k in range(rng.randint(1, 3)):
+                    mask[t * nx + nx - 1 - k] = 1
             # keep at least two good pixels per trace
             good = [k for k in range(nx) if mask[t * nx + k] == 0]
             if len(good) < 2:
@@ -479,6 +486,9 @@ def check_filter(ctx, viol):
         for wave in ('waveimg', 'wset'):
             jobs.append(gen_filter_job(ctx, True, direction, wave, 'full'))
             jobs.append(gen_filter_job(ctx, False, direction, wave, 'full'))
+    # three traces of different levels with masked pixels at the ends, starts and interior of the traces
+    for k in range(ctx.n(3, 10)):
+        jobs.append(gen_filter_job(ctx, k == 0, ctx.rng.choice(['blue-to-red', 'red-to-blue']), ctx.rng.choice(['waveimg', 'wset']), 'full', ends=True))
     # float32 and float64 flux on grids that only just reach into the toe of a band (the band overlaps: constant -> c)
     for k in range(ctx.n(4, 16)):
         band, side = ctx.rng.choice('ugriz'), ctx.rng.choice(['blue', 'red'])
@@ -520,6 +530,14 @@ def check_filter(ctx, viol):
                 if vc != 0.0 and abs(vc - c0) > ej * max(1.0, abs(c0)):
                     viol('C19:filter_thru:constant', 'constant spectrum %r gives %r in band %s (%s wavelength solution, %s)'
                          % (c0, vc, 'ugriz'[i], job.get('direction'), job['wave']), rep, True)
+                if 'res_levels' in r:
+                    vl, lev = r['res_levels'][t][i], job['levels'][t]
+                    if not isnum(vl) or (vc != 0.0 and abs(vl - lev) > ej * max(1.0, abs(lev))) or (vc == 0.0 and vl != 0.0):
+                        viol('C19:filter_thru:per-trace-constant',
+                             'traces constant at their own levels %r: band %s of trace %d returns %r, not the level %r of that trace '
+                             '(masked: %s, %s wavelength solution, %s)' % (job['levels'], 'ugriz'[i], t, vl, lev, job['mask'] is not None,
+                                                                         job.get('direction'), job['wave']),
+                             dict(rep, levels=job['levels'], band_value=vl), True)
                 lo, hi = r.get('good_min', [None] * nT)[t], r.get('good_max', [None] * nT)[t]
                 if vc != 0.0 and lo is not None and (v1 < lo - ej * (1 + abs(lo)) or v1 > hi + ej * (1 + abs(hi))):
                     viol('C19:filter_thru:bounds', 'band %s result %r outside [min, max] = [%r, %r] of the unmasked flux (%s wavelength solution)'
@@ -560,7 +578,7 @@ def check_filter(ctx, viol):
                     vj = r['res_junk'][t][i]
                     if not isnum(vj) or abs(vj - v1) > ej * (1 + abs(v1)):
                         viol('C19:filter_thru:mask', 'changing the values of masked pixels changes band %s: %r -> %r' % ('ugriz'[i], v1, vj), rep, True)
-                if 'fitted' in r and 'resp' in r:
+                if 'fitted' in r and 'resp' in r and (job['mask'] is None or r.get('maskinterp_called', True)):
                     # raw ingredients per pixel: fitted d(log lambda) (either sign), interpolated response, (interpolated) flux
                     ft, rs, fi = r['fitted'][t], r['resp'][t][i], r['fi'][t]
                     if all(isnum(x) for x in ft) and all(isnum(x) for x in rs) and all(isnum(x) for x in fi):
